@@ -78,6 +78,7 @@ def acc_bound(ev, a, b):
     m = iv.mpf(m.a)
     h = (iv.mpf(b) - iv.mpf(a)) / 2
     # order 0: direct enclosures
+    ev.piecewise = False
     try:
         F0 = real_jet(ev, FWD, J(box, 0, 0))
         X0 = xi_interval(box)
@@ -86,6 +87,8 @@ def acc_bound(ev, a, b):
     except ZeroDivisionError:
         b0 = None
     best = b0
+    if ev.piecewise:
+        return best          # the box meets more than one piece of a branching body: no Taylor form across pieces
     # order 2: Taylor form around the midpoint
     try:
         Fm = real_jet(ev, FWD, J.var(m))
@@ -95,7 +98,7 @@ def acc_bound(ev, a, b):
         Xm, Xb = jasin(Sm), jasin(Sb)
         hh = mag(h)
         t = mag(Fm.v - Xm.v) + mag(Fm.d1 - Xm.d1) * hh + mag(Fb.d2 - Xb.d2) * hh * hh / 2
-        if best is None or t < best:
+        if not ev.piecewise and (best is None or t < best):
             best = t
     except ZeroDivisionError:
         pass
@@ -107,10 +110,17 @@ def rt_bound(ev, a, b):
     box = iv.mpf([a, b])
     m = iv.mpf(((iv.mpf(a) + iv.mpf(b)) / 2).a)
     h = (iv.mpf(b) - iv.mpf(a)) / 2
+    ev.piecewise = False
+    G0 = real_jet(ev, INV, real_jet(ev, FWD, J(box, 0, 0)))
+    b0 = mag(G0.v - box)
+    if ev.piecewise:
+        return b0            # more than one piece of a branching body: plain range enclosure only
     Gm = real_jet(ev, INV, real_jet(ev, FWD, J.var(m)))
     Gb = real_jet(ev, INV, real_jet(ev, FWD, J.var(box)))
+    if ev.piecewise:
+        return b0
     hh = mag(h)
-    return mag(Gm.v - m) + mag(Gm.d1 - 1) * hh + mag(Gb.d2) * hh * hh / 2
+    return min(b0, mag(Gm.v - m) + mag(Gm.d1 - 1) * hh + mag(Gb.d2) * hh * hh / 2)
 
 
 def rounding_bound(ev):
@@ -220,9 +230,14 @@ def main(argv=None):
     # 1. parity (oddness)
     try:
         par = parity_of_function(repo, FWD)
-        obligations.append(("C15/forward/odd(parity-of-AST)", par == "odd", "parity of the result: %s" % par))
+        # odd: proved; even: refuted (an even function that is not identically zero is not odd); anything else is
+        # outside the parity analysis and leaves the obligation undecided, never violated
+        verdict = {"odd": True, "even": False}
+        obligations.append(("C15/forward/odd(parity-of-AST)", verdict.get(par), ("parity of the result: %s" % par) if par in verdict else
+                            "undecided: the parity analysis does not cover this body (result %s)" % par))
         par2 = parity_of_function(repo, INV)
-        obligations.append(("C15/inverse/odd(parity-of-AST)", par2 == "odd", "parity of the result: %s" % par2))
+        obligations.append(("C15/inverse/odd(parity-of-AST)", verdict.get(par2), ("parity of the result: %s" % par2) if par2 in verdict else
+                            "undecided: the parity analysis does not cover this body (result %s)" % par2))
     except Exception as e:
         obligations.append(("C15/forward/odd(parity-of-AST)", None, "undecided: %s" % e))
     # 2. rounding error bounds
@@ -262,9 +277,12 @@ def main(argv=None):
             ok = True
             lowest = 9.0
             nb = 400
+            ev.piecewise = False
             for i in range(nb):
                 box = iv.mpf([hp * i / nb, hp * (i + 1) / nb])
                 d1 = real_jet(ev, FWD, J.var(box)).d1
+                if ev.piecewise:
+                    raise Unsupported("the body branches on the latitude: a derivative bound per piece does not exclude a jump between pieces")
                 dlo = float(mp.mpf(d1._mpi_[0]))
                 lowest = min(lowest, dlo)
                 if dlo <= 1e-3:
